@@ -111,7 +111,10 @@ Inductive sense := Le | Ge | Eq.
 Definition sense_eqb (a b : sense) : bool :=
   match a, b with Le, Le | Ge, Ge | Eq, Eq => true | _, _ => false end.
 
-Record constr := mkC { k_sense : sense; k_lhs : emdl; k_rhs : Qc }.
+(* a constraint also carries what equality does NOT look at: the soft weight (None = hard),
+   the penalty kind of a soft constraint, the discrete (one-hot) mark *)
+Record constr := mkC { k_sense : sense; k_lhs : emdl; k_rhs : Qc;
+                       k_weight : option Qc; k_quadratic_penalty : bool; k_discrete : bool }.
 Record cqm := mkCqm { q_obj : emdl; q_vars : list (label * vartype); q_cons : list (label * constr) }.
 
 (* anything is_equal may be handed *)
@@ -208,16 +211,99 @@ Definition same_cqm_b (n k : nat) (c d : cqm) : bool :=
   same_model_b n (q_obj c) (q_obj d)
   && forallb (fun l => same_constr_b n (assoc (q_cons c) l) (assoc (q_cons d) l)) (seq 0 k).
 
-(* is_almost_equal on quarter-dyadic data: round(x, 0) == 0 iff |x| <= 1/2 (round half to
-   even); for places >= 1 a non-zero multiple of 1/4 never rounds to 0 *)
-Definition almost_eqb (places : nat) (x y : Qc) : bool :=
-  match places with
-  | O => Qle_bool (x - y) half && Qle_bool (y - x) half
-  | _ => Qc_eqb x y
-  end.
+(* ---------- is_almost_equal ---------- *)
+(* Python's round(x, places) on the exact value x: rint(x * 10^places) / 10^places with ties to
+   even.  Only "rounds to zero" matters (`not round(a - b, places)`; -0.0 is falsy as well):
+   that is |x| * 10^places < 1/2, or = 1/2 exactly (the tie goes to the even neighbour 0).
+   Outside the model: the float subtraction a - b and, for numpy scalars, the float product
+   x * 10^places (np.round multiplies, rints and divides); both are exact on the dyadic data the
+   harness generates.  CPython's float round is correctly rounded on the exact binary value. *)
+Fixpoint pow10 (p : nat) : Qc := match p with O => 1 | S k => qc 10 1 * pow10 k end.
+Definition rz (places : nat) (d : Qc) : bool :=
+  Qle_bool ((d * pow10 places)%Qc) half && Qle_bool ((- d * pow10 places)%Qc) half.   (* |d| * 10^places <= 1/2 *)
+Definition almost_eqb (places : nat) (x y : Qc) : bool := rz places (x - y).
 
 Definition almost_model_b (places n : nat) (a b : emdl) : bool :=
   forallb (fun l => ovt_eqb (vt_of a l) (vt_of b l)) (seq 0 n)
   && shape_eqb a b && almost_eqb places (e_off a) (e_off b)
   && forallb (fun l => option_eqb (almost_eqb places) (lin_of a l) (lin_of b l)) (seq 0 n)
   && forallb (fun v => forallb (fun u => option_eqb (almost_eqb places) (adj_of a v u) (adj_of b v u)) (seq 0 n)) (seq 0 n).
+
+(* code shape of is_almost_equal (BQM as repaired, QM, views): number shortcut; vartype test as
+   in is_equal; shape; offset; other.get_linear(v) for v in self.variables (ValueError for a
+   missing label); other.get_quadratic(u, v) for every interaction of self (ValueError when the
+   other model has no such interaction); except (AttributeError, ValueError): False *)
+Definition almost_body (p : nat) (a b : emdl) : out :=
+  and_out (vartype_eq a b)
+    (and_out (Val (shape_eqb a b))
+       (and_out (Val (almost_eqb p (e_off a) (e_off b)))
+          (and_out
+             (all_out (map (fun v => match lin_of b v with
+                                     | None => Raise ValErr
+                                     | Some y => match lin_of a v with
+                                                 | Some x => Val (almost_eqb p x y)
+                                                 | None => Raise ValErr
+                                                 end
+                                     end) (labels a)))
+             (all_out (map (fun t => match adj_of b (fst (fst t)) (snd (fst t)) with
+                                     | None => Raise ValErr
+                                     | Some y => Val (almost_eqb p (snd t) y)
+                                     end) (e_quad a)))))).
+
+Definition almost_catches : list exn := [AttrErr; ValErr].
+
+Definition is_almost_equal_code (p : nat) (a : emdl) (o : obj) : out :=
+  match o with
+  | ONumber q => Val (match e_vars a with [] => true | _ => false end && almost_eqb p (e_off a) q)
+  | OModel b => handle almost_catches (almost_body p a b)
+  | OCqm c => handle almost_catches (body_vs_cqm a c)
+  | OOther => handle almost_catches (Raise AttrErr)
+  end.
+
+Definition constraint_almost (p : nat) (c0 c1 : constr) : out :=
+  and_out (Val (sense_eqb (k_sense c0) (k_sense c1)))
+    (and_out (is_almost_equal_code p (k_lhs c0) (OModel (k_lhs c1)))
+             (Val (almost_eqb p (k_rhs c0) (k_rhs c1)))).
+
+Definition cqm_is_almost_equal_code (p : nat) (c : cqm) (o : obj) : out :=
+  match o with
+  | OCqm d =>
+      and_out (is_almost_equal_code p (q_obj c) (OModel (q_obj d)))
+        (and_out (Val (keys_eqb (q_cons c) (q_cons d)))
+           (all_out (map (fun lc => match assoc (q_cons d) (fst lc) with
+                                    | Some c1 => constraint_almost p (snd lc) c1
+                                    | None => Raise KeyErr
+                                    end) (q_cons c))))
+  | _ => Val false
+  end.
+
+(* well-formed observation of a real model: labels are distinct, an unordered pair of variables
+   has at most one interaction, interactions join variables of the model *)
+Definition npair (t : qterm) : label * label :=
+  (Nat.min (fst (fst t)) (snd (fst t)), Nat.max (fst (fst t)) (snd (fst t))).
+
+Definition wf (m : emdl) : Prop :=
+  NoDup (labels m) /\ NoDup (map npair (e_quad m)) /\
+  (forall t, In t (e_quad m) -> In (fst (fst t)) (labels m) /\ In (snd (fst t)) (labels m)).
+
+Fixpoint nodup_b {A} (eqb : A -> A -> bool) (l : list A) : bool :=
+  match l with [] => true | x :: xs => negb (existsb (eqb x) xs) && nodup_b eqb xs end.
+
+Definition wf_b (m : emdl) : bool :=
+  nodup_b Nat.eqb (labels m)
+  && nodup_b (fun x y => (fst x =? fst y)%nat && (snd x =? snd y)%nat) (map npair (e_quad m))
+  && forallb (fun t => mem (fst (fst t)) (labels m) && mem (snd (fst t)) (labels m)) (e_quad m).
+
+Definition rel_opt (R : Qc -> Qc -> bool) (x y : option Qc) : Prop :=
+  match x, y with
+  | None, None => True
+  | Some a, Some b => R a b = true
+  | _, _ => False
+  end.
+
+Definition almost_same_model (p : nat) (a b : emdl) : Prop :=
+  (forall l, vt_of a l = vt_of b l) /\
+  length (e_vars a) = length (e_vars b) /\ length (e_quad a) = length (e_quad b) /\
+  almost_eqb p (e_off a) (e_off b) = true /\
+  (forall l, rel_opt (almost_eqb p) (lin_of a l) (lin_of b l)) /\
+  (forall v u, In v (labels a) -> rel_opt (almost_eqb p) (adj_of a v u) (adj_of b v u)).
